@@ -166,6 +166,15 @@ theorem C13_website_detected_iff (U : Detect.UEnv) (text : CPs) :
       ∃ tld ∈ Generated.Tables.tldList, ∃ k, Detect.OccursAt (U.lowerS text) tld k ∧ Detect.endsHost U (U.lowerS text) tld k = true :=
   Detect.detectWebsite_isSome_iff U text
 
+/-- **`detect_email` as a whole**: a section is taken for an e-mail address exactly when, in its lower-cased working copy, the *first*
+occurrence of some top-level domain of the table has an `@` somewhere in front of its end (later occurrences of the domain are not
+looked at - `bob@x.com` is one, `x.com@bob` is one as well, `a.com/b@c.com` is judged by the first `.com`) -/
+theorem C13_email_detected_iff (U : Detect.UEnv) (text : CPs) :
+    (Detect.detectEmail U text).isSome = true ↔
+      ∃ tld ∈ Generated.Tables.tldList, ∃ e0, Detect.findSub (U.lowerS text) tld = some e0 ∧
+        ∃ m, Detect.OccursAt ((U.lowerS text).take (e0 + tld.length)) [Detect.cpOf '@'] m :=
+  Detect.detectEmail_isSome_iff U text
+
 /-- **nothing outlives a call except the objects a caller holds** (regenerated from the four library packages): no module-level or
 class-level mutable container, no cache decorator or cache call (`functools.lru_cache`, `cache`), no mutable or computed default
 argument and no `global` statement anywhere in `lib_guesser`, `lib_trainer`, `lib_scorer`, `lib_princeling`.  The models of this file are
